@@ -138,7 +138,7 @@ def _gen_program_once(rng, *, futures, hooks, max_pre):
             side = None
             if ti + 1 < len(TYPES) and rng.random() < 0.4:
                 side = [_evspec(rng, n_ent, ti + 1, handles, hooks=hooks, hook_ids=hook_ids) for _ in range(rng.randrange(0, 3))]
-            style = rng.choice(["list", "list", "single", "none"])
+            style = rng.choice(["list", "list", "single", "none", "iter"])
             if not side and rng.random() < (0.5 if futures else 0.3):
                 side, style = [], "shared"
             out.append({"op": "delay", "d": rng.choice(delays), "side": side, "side_style": style})
@@ -214,13 +214,16 @@ def _gen_program_once(rng, *, futures, hooks, max_pre):
     prog = {"n_ent": n_ent, "end_ns": end, "pre": pre, "sched_order": order, "table": table}
     # a start_time other than the epoch (also far from it, where float seconds lose nanosecond resolution);
     # a few pre-run events then lie before the start and are not live
-    start = rng.choice([0, 0, 0, 0, 10**9, 5 * 10**8 + 1, 10**15 + 12345])
+    # ... and beyond 2**53 ns (104 days), where nanoseconds no longer fit a float exactly (a Unix-epoch start_time)
+    start = rng.choice([0, 0, 0, 0, 10**9, 5 * 10**8 + 1, 10**15 + 12345, 2**53 + 1, 1_700_000_000 * 10**9 + 123])
     if start:
         prog["start_ns"] = start
         for spec in pre:
             spec["t"] += start if rng.random() < 0.93 else 0
         if end is not None:
             prog["end_ns"] = end + start
+    if prog["end_ns"] is None and rng.random() < 0.3:
+        prog["explicit_infinity"] = True  # end_time=Instant.Infinity written out (the documented default)
     # the horizon given as Simulation(duration=seconds) instead of end_time=Instant (also with a start_time)
     if prog["end_ns"] is not None and prog["end_ns"] >= start and rng.random() < 0.3:
         prog["use_duration"] = True
